@@ -402,6 +402,11 @@ pub fn flip_byte_lc(rng: &mut Rng, data: &P2pBytes) -> Option<(P2pBytes, String)
     if packed::LightClientMessageReader::from_compatible_slice(&v).is_err() {
         return None;
     }
+    // a flip inside the parent chain root of a genesis header changes nothing the protocol defines
+    // (genesis has no parent chain): such a message is the honest answer, not an invalid one
+    if normalized_lsp(&v).is_some() && normalized_lsp(&v) == normalized_lsp(data) {
+        return None;
+    }
     Some((P2pBytes::from(v), "flip-bit".into()))
 }
 
@@ -433,4 +438,24 @@ pub fn forged_child(chain: &Chain, forged_td: Option<U256>, forged_end: Option<u
 
 pub fn header_view(vh: &packed::VerifiableHeader) -> HeaderView {
     vh.header().into_view()
+}
+
+/// SendLastStateProof with the (information-free) parent chain roots of genesis headers zeroed
+fn normalized_lsp(data: &[u8]) -> Option<Vec<u8>> {
+    let m = packed::LightClientMessageReader::from_compatible_slice(data).ok()?;
+    if let packed::LightClientMessageUnionReader::SendLastStateProof(r) = m.to_enum() {
+        let e = r.to_entity();
+        let norm = |h: packed::VerifiableHeader| {
+            let n: u64 = h.header().raw().number().unpack();
+            if n == 0 {
+                h.as_builder().parent_chain_root(packed::HeaderDigest::default()).build()
+            } else {
+                h
+            }
+        };
+        let headers: Vec<packed::VerifiableHeader> = e.headers().into_iter().map(norm).collect();
+        let e2 = e.clone().as_builder().last_header(norm(e.last_header())).headers(packed::VerifiableHeaderVec::new_builder().set(headers).build()).build();
+        return Some(e2.as_slice().to_vec());
+    }
+    None
 }
